@@ -39,6 +39,10 @@ pub struct Shutdown {
     /// true: requested by a task of the victim, false: by a command message handled by the victim
     pub via_task: bool,
     pub restart: Restart,
+    /// the requesting code first calls plain shutdown() and then, in the same event, the restart request: a restart
+    /// time was given, so the module restarts
+    #[serde(default)]
+    pub plain_first: bool,
 }
 
 #[derive(Debug, Clone, Serialize, Deserialize, PartialEq)]
@@ -130,6 +134,13 @@ fn log(module: usize, about: usize, inc: u32, kind: Kind) {
     LOG.with(|l| l.borrow_mut().push(Entry { module, about, inc, kind, t: now_ns() }));
 }
 
+fn request_with(r: Restart, plain_first: bool) {
+    if plain_first && r != Restart::Never {
+        current().shutdown();
+    }
+    request(r);
+}
+
 fn request(r: Restart) {
     match r {
         Restart::Never => current().shutdown(),
@@ -214,7 +225,7 @@ impl Module for Victim {
                     sleep_until(st(sd.at)).await;
                     log(2 + k, k, inc, Kind::KillerFired(j));
                     send(Message::default().kind(K_BYE).id(j as u16), "up");
-                    request(sd.restart);
+                    request_with(sd.restart, sd.plain_first);
                 };
                 if local {
                     tokio::task::spawn_local(killer);
@@ -238,7 +249,7 @@ impl Module for Victim {
                 let j = h.id as usize;
                 log(2 + self.k, self.k, self.inc, Kind::Cmd(j));
                 send(Message::default().kind(K_BYE).id(j as u16), "up");
-                request(self.plan.shutdowns[j].restart);
+                request_with(self.plan.shutdowns[j].restart, self.plan.shutdowns[j].plain_first);
             }
             K_DATA => log(2 + self.k, self.k, self.inc, Kind::Data(h.id as usize)),
             _ => {}
@@ -363,7 +374,7 @@ pub fn execute(case: &Case) -> Observed {
                                         let j = h.id as usize;
                                         log(2 + v, v, inc, Kind::Cmd(j));
                                         send(Message::default().kind(K_BYE).id(j as u16), "up");
-                                        request(plan.shutdowns[j].restart);
+                                        request_with(plan.shutdowns[j].restart, plan.shutdowns[j].plain_first);
                                     }
                                     K_DATA => log(2 + v, v, inc, Kind::Data(h.id as usize)),
                                     _ => {}
@@ -746,7 +757,7 @@ pub fn gen_case(rng: &mut Rng, coincide: bool) -> Case {
                 1..=2 => Restart::In(d),
                 _ => Restart::At(at + d),
             };
-            shutdowns.push(Shutdown { at, via_task: rng.chance(1, 2), restart });
+            shutdowns.push(Shutdown { at, via_task: rng.chance(1, 2), restart, plain_first: rng.chance(1, 4) });
             match restart {
                 Restart::Never => break,
                 _ => t = at + d,
@@ -756,7 +767,7 @@ pub fn gen_case(rng: &mut Rng, coincide: bool) -> Case {
         if let Some(first) = shutdowns.first().copied() {
             if let Some(rt) = restart_time(&first) {
                 if rt > first.at + 30 * MS && rng.chance(1, 3) {
-                    shutdowns.push(Shutdown { at: first.at + 20 * MS, via_task: rng.chance(1, 2), restart: Restart::In(12 * MS) });
+                    shutdowns.push(Shutdown { at: first.at + 20 * MS, via_task: rng.chance(1, 2), restart: Restart::In(12 * MS), plain_first: false });
                 }
             }
         }
@@ -883,6 +894,7 @@ pub fn cmd(args: &Args) -> Report {
         rep.count("async_fn_victims_restarted", case.victims.iter().zip(&r.downs).filter(|(v, d)| v.async_fn && d.iter().any(|(_, rt)| rt.is_some())).count() as u64);
         rep.count("victims_with_spawn_local_tasks_shut_down", case.victims.iter().zip(&r.downs).filter(|(v, d)| v.local_tasks && !d.is_empty()).count() as u64);
         rep.count("data_messages_due_while_down", dropped_data as u64);
+        rep.count("restart_requests_issued_right_after_a_plain_shutdown_in_the_same_event", case.victims.iter().flat_map(|v| v.shutdowns.iter()).filter(|s| s.plain_first && s.restart != Restart::Never).count() as u64);
         rep.count("events_seen_by_victim_processing_stacks", o.log.iter().filter(|e| e.kind == Kind::PluginEvent).count() as u64);
         rep.count("victims_spawning_a_sleeping_task_in_reset", case.victims.iter().zip(&r.downs).filter(|(v, d)| v.reset_task_ns > 0 && !d.is_empty()).count() as u64);
         rep.count("transit_messages_due_while_down", dropped_transit as u64);
